@@ -29,14 +29,20 @@ def cases():
 
 def main():
     want = set(sys.argv[1:])
+    # VERIF_SHARD=i/n: this process takes every n-th case (several shards run side by side,
+    # each with its own VERIF_SCRATCH; results.json is merged under a lock)
+    shard = os.environ.get("VERIF_SHARD")
+    si, sn = (int(x) for x in shard.split("/")) if shard else (0, 1)
     # private copy of the engine so that rebuilding /verif/bin/cffvc meanwhile does not invalidate the pass cache
     priv = os.path.join(base, "verif-selftest-cffvc")
     shutil.copy(os.path.join(V, "bin", "cffvc"), priv)
     os.environ["VERIF_BIN"] = priv
     resf = os.path.join(V, "selftest", "results.json")
-    results = json.load(open(resf)) if os.path.exists(resf) else {}
-    for name, patch in cases():
+    results = {}
+    for idx, (name, patch) in enumerate(cases()):
         if want and name not in want:
+            continue
+        if idx % sn != si:
             continue
         shutil.rmtree(wt, ignore_errors=True)
         os.makedirs(wt)
@@ -66,7 +72,13 @@ def main():
             print(name, "DETECTED by", sorted(hit) if hit else "NOTHING", "(own property %s: %s)" % (own, "yes" if own in hit else "no"), flush=True)
         finally:
             shutil.rmtree(wt, ignore_errors=True)
-            json.dump(results, open(resf, "w"), indent=1, sort_keys=True)
+            import fcntl
+            with open(resf + ".lock", "w") as lk:
+                fcntl.flock(lk, fcntl.LOCK_EX)
+                merged = json.load(open(resf)) if os.path.exists(resf) else {}
+                merged.update(results)
+                json.dump(merged, open(resf + ".tmp", "w"), indent=1, sort_keys=True)
+                os.replace(resf + ".tmp", resf)
 
 if __name__ == "__main__":
     main()
